@@ -152,6 +152,10 @@ def decodeWith (I : Inner) (enc : Text) (input : Bytes) : Except CErr Text :=
     | none => .error .unicode
     | some t => .ok ((fixEncoding t enc true).getD t)
 
+/-- the codec's own name, in any letter case (the codec registry is case-insensitive, so the guards
+against calling the css codec from itself have to be, too; repaired in /repo) -/
+def isCss (e : Text) : Bool := e.map lowerC == ofStr "css"
+
 /-- `decode(input, encoding, force)` -/
 def decode (I : Inner) (input : Bytes) (encoding : Option Text) (force : Bool) : Except CErr Text :=
   let d := detectStr input true
@@ -159,7 +163,7 @@ def decode (I : Inner) (input : Bytes) (encoding : Option Text) (force : Bool) :
     match encoding with
     | none => d.1.getD utf8
     | some e => if !force && d.2 then d.1.getD utf8 else e
-  if (encoding.isNone || !force) && d.1 == some (ofStr "css") then .error .value
+  if (encoding.isNone || !force) && (d.1.map isCss).getD false then .error .value
   else decodeWith I enc input
 
 /-- `encode(input, encoding)` -/
@@ -170,12 +174,12 @@ def encode (I : Inner) (input : Text) (encoding : Option Text) : Except CErr Byt
     | none => .error .attribute
     | some e =>
       let t := if isUtf8Sig e then (fixEncoding input utf8 true).getD input else input
-      if e == ofStr "css" then .error .value
+      if isCss e then .error .value
       else if !I.known e then .error .lookup
       else match I.encodeAll e t with | none => .error .unicode | some b => .ok b
   | some e =>
     let t := (fixEncoding input e true).getD input
-    if e == ofStr "css" then .error .value
+    if isCss e then .error .value
     else if !I.known e then .error .lookup
     else match I.encodeAll e t with | none => .error .unicode | some b => .ok b
 
@@ -213,7 +217,7 @@ def chooseFrom (encoding : Option Text) (force : Bool) (d : Option Text × Bool)
     match d.1 with
     | none => .ok none
     | some e =>
-      if e == ofStr "css" then .error .value
+      if isCss e then .error .value
       else .ok (some (if (d.2 && !force) || encoding.isNone then e else encoding.getD utf8))
   else .ok (some (encoding.getD utf8))
 
@@ -272,7 +276,7 @@ def encStep (I : Inner) (st : EncSt I) (input : Text) (final : Bool) : Except CE
     | none => .ok ([], { st with buf := inp })
     | some (_, none) => .ok ([], { st with buf := inp, encoding := none })
     | some (t, some e) =>
-      if e == ofStr "css" then .error .value
+      if isCss e then .error .value
       else if !I.known e then .error .lookup
       else
         let t' := if isUtf8Sig e then (fixEncoding t utf8 true).getD t else t
